@@ -73,6 +73,34 @@ impl<F: Future<Output = std::io::Result<T>>, T> Pollable for FutOp<F, T> {
     }
 }
 
+/// A user implementation of the public `SocketAddress` trait whose `init` (the decoding of
+/// the peer address of an accepted connection) panics.
+struct PanicAddr;
+
+impl a10::net::SocketAddress for PanicAddr {
+    type Storage = libc::sockaddr_storage;
+
+    fn into_storage(self) -> Self::Storage {
+        unsafe { std::mem::zeroed() }
+    }
+
+    unsafe fn as_ptr(storage: &Self::Storage) -> (*const libc::c_void, u32) {
+        (std::ptr::from_ref(storage).cast(), size_of::<libc::sockaddr_storage>() as u32)
+    }
+
+    unsafe fn as_mut_ptr(storage: &mut std::mem::MaybeUninit<Self::Storage>) -> (*mut libc::c_void, u32) {
+        (storage.as_mut_ptr().cast(), size_of::<libc::sockaddr_storage>() as u32)
+    }
+
+    unsafe fn init(_: std::mem::MaybeUninit<Self::Storage>, _: u32) -> Self {
+        panic!("PanicAddr::init")
+    }
+
+    fn domain(&self) -> a10::net::Domain {
+        a10::net::Domain::IPV4
+    }
+}
+
 struct MAccept(Pin<Box<a10::net::MultishotAccept<'static>>>);
 
 impl Pollable for MAccept {
@@ -541,7 +569,11 @@ impl FdsCase {
                 }
             }
         }
+        // an accept whose address decoding panics (`PanicAddr::init`, reached from `map_ok`
+        // with a successful result): not the panic of a poll after completion
+        let init_panic = r.is_err() && self.ops[i].kind == "acceptp" && self.descs.iter().any(|d| d.st == St::Pending(i));
         match r {
+            Err(_) if init_panic => out.push("ready panic".into()),
             Err(_) => out.push("panic".into()),
             Ok(Polled::Pending) => out.push("pending".into()),
             Ok(Polled::Fds(v)) => {
@@ -569,8 +601,16 @@ impl FdsCase {
         if sqes.is_empty() && pend_before >= self.sq_len && out[0] == "pending" {
             self.feats.push("queue-full-poll".into());
         }
+        let mut panic_requests: Vec<(K, u32)> = Vec::new();
         for sqe in sqes {
             if sqe.user_data <= 3 {
+                if init_panic && sqe.opcode == simk::OP_CLOSE {
+                    // the unwind dropped the AsyncFd `map_ok` had built
+                    let (k, raw) = close_target(&sqe);
+                    out.push(format!("close-sqe {}", key(k, raw)));
+                    panic_requests.push((k, raw));
+                    continue;
+                }
                 out.push(format!("sqe ? {} ud={}", simk::opcode_name(sqe.opcode), sqe.user_data));
                 continue;
             }
@@ -600,6 +640,37 @@ impl FdsCase {
                 let fixed = sqe.flags & simk::IOSQE_FIXED_FILE != 0;
                 out.push(format!("sqe op{i} {} alloc={} fixed={}", simk::opcode_name(sqe.opcode), alloc as u8, fixed as u8));
             }
+        }
+        if init_panic {
+            // the AsyncFd `map_ok` built lived for a moment: its handle number is used up
+            // (as in the model, where this poll is a poll followed by the drop of that handle)
+            self.handles.push(HSlot { obj: None, std: false });
+            let d = self.descs.iter().position(|d| d.st == St::Pending(i)).unwrap();
+            let expect = (self.descs[d].kind, self.descs[d].raw);
+            self.descs[d].st = St::Released;
+            self.descs[d].wraps += 1;
+            let n0 = out.len();
+            self.kernel_events(&mut out, true);
+            for l in &out[n0..] {
+                if let Some(rest) = l.strip_prefix("sync-close ").or_else(|| l.strip_prefix("sync-unreg ")) {
+                    let kr = rest.split(' ').next().unwrap_or("");
+                    if let Some((k, r)) = kr.split_once(':') {
+                        let k = if k == "direct" { K::Direct } else { K::File };
+                        panic_requests.push((k, r.parse().unwrap_or(u32::MAX)));
+                    }
+                }
+            }
+            match panic_requests.as_slice() {
+                [r] if *r == expect => {}
+                [] => {
+                    self.descs[d].st = St::Lost;
+                    self.descs[d].wraps -= 1;
+                    self.descs[d].how = "the poll that read it panicked while decoding the peer address";
+                    self.fail("C07/not-closed/accept-init-panic", format!("op{i} (accept): the kernel returned {} and SocketAddress::init panicked: no close request was issued, the descriptor is owned by no AsyncFd and is never closed", key(expect.0, expect.1)));
+                }
+                rs => self.fail("C07/wrong-close/accept-init-panic", format!("op{i} (accept): SocketAddress::init panicked after the kernel returned {}; close requests issued: {rs:?}", key(expect.0, expect.1))),
+            }
+            self.feats.push("accept-init-panicked".into());
         }
         out
     }
@@ -863,7 +934,7 @@ impl FdsCase {
                             }
                         }
                     }
-                    "accept" | "maccept" | "todirect" | "tofd" => {
+                    "accept" | "acceptp" | "maccept" | "todirect" | "tofd" => {
                         let Ok(a) = arg.parse::<usize>() else { return bad() };
                         let Some(fd) = self.handles.get(a).and_then(|h| h.afd()) else { return bad() };
                         let hk = K::of(fd.kind());
@@ -876,6 +947,10 @@ impl FdsCase {
                                 fut: Box::pin(fd.accept::<a10::net::NoAddress>()),
                                 conv: |(fd, _): (AsyncFd, a10::net::NoAddress)| vec![fd],
                             }),
+                            "acceptp" => {
+                                self.feats.push("accept-init-panics".into());
+                                Box::new(FutOp { fut: Box::pin(fd.accept::<PanicAddr>()), conv: |(fd, _): (AsyncFd, PanicAddr)| vec![fd] })
+                            }
                             "maccept" => Box::new(MAccept(Box::pin(fd.multishot_accept()))),
                             "todirect" => Box::new(FutOp { fut: Box::pin(fd.to_direct_descriptor()), conv: |fd: AsyncFd| vec![fd] }),
                             _ => Box::new(FutOp { fut: Box::pin(fd.to_file_descriptor()), conv: |fd: AsyncFd| vec![fd] }),
@@ -1312,10 +1387,16 @@ impl FdsCase {
                     "C07/never-closed/pipe-fallback".into(),
                     format!("d{d} {k}: {}; it is owned by no AsyncFd and is never closed", e.how),
                 )),
-                St::Lost => fails.push((
-                    format!("C07/abandoned-fd/{}", e.opkind),
-                    format!("d{d} {k} delivered to an abandoned {} operation ({}) is never wrapped in an AsyncFd and never closed", e.opkind, e.how),
-                )),
+                // reported when it happened (`C07/not-closed/accept-init-panic`)
+                St::Lost if e.how.starts_with("the poll that read it panicked") => {}
+                St::Lost => {
+                    // an abandoned accept is an abandoned accept, whatever its address type
+                    let opkind = if e.opkind == "acceptp" { "accept" } else { e.opkind.as_str() };
+                    fails.push((
+                        format!("C07/abandoned-fd/{opkind}"),
+                        format!("d{d} {k} delivered to an abandoned {opkind} operation ({}) is never wrapped in an AsyncFd and never closed", e.how),
+                    ))
+                }
             }
         }
         for (sig, what) in fails {
@@ -1438,7 +1519,7 @@ impl Case for FdsCase {
                 // mostly real descriptors as listeners, sometimes a standard stream
                 let non_std: Vec<usize> = live_h.iter().copied().filter(|a| !self.handles[*a].std).collect();
                 let a = if !non_std.is_empty() && rng.chance(9, 10) { *rng.pick(&non_std) } else { *rng.pick(&live_h) };
-                let kind = if rng.chance(1, 2) { "accept" } else { "maccept" };
+                let kind = if rng.chance(1, 6) { "acceptp" } else if rng.chance(1, 2) { "accept" } else { "maccept" };
                 Some(format!("fds new {n} {kind} {a}"))
             }
             2 => {
